@@ -78,6 +78,7 @@ Inductive decision :=
 | DUnplaced (t : Z).
 Definition dec_task (d : decision) : Z :=
   match d with DCancel t => t | DPlace t _ _ _ => t | DUnplaced t => t end.
+Definition is_cancel (d : decision) : bool := match d with DCancel _ => true | _ => false end.
 
 Section Policy.
   Variable L : ledger.
@@ -325,6 +326,7 @@ Definition mon_contract (o : gobs) : bool :=
   contract_check SL (gi_offered (go_in o)) (go_virtual o) (gi_now (go_in o)) (go_decisions o).
 Definition mon_c12 (o : gobs) : bool :=
   c12_check SL (gi_offered (go_in o)) (gi_now (go_in o)) (go_decisions o).
+Definition mon_no_cancel (o : gobs) : bool := forallb (fun d => negb (is_cancel d)) (go_decisions o).
 Definition mon_c13 (o : gobs) : bool :=
   negb (single_worker SL (go_virtual o)) ||
   c13_check SL (doc_key_of_code (gi_policy (go_in o)) (gi_now (go_in o))) (gi_offered (go_in o))
